@@ -421,7 +421,7 @@ def r_merge(repo, tier):
     v = repo.func(EXPR, "vec.simplify")
     vloops = [l for l in ast.walk(v.node) if isinstance(l, ast.For)]
     # accumulators: the lists the loops fill -- locals initialised to [] in the function, and self.l
-    list_locals = {a.targets[0].id for a in ast.walk(v.node) if isinstance(a, ast.Assign) and len(a.targets) == 1 and isinstance(a.targets[0], ast.Name) and isinstance(a.value, ast.List) and not a.value.elts}
+    list_locals = {t.id for a in ast.walk(v.node) if isinstance(a, ast.Assign) and isinstance(a.value, ast.List) and not a.value.elts for t in a.targets if isinstance(t, ast.Name)}
     for k, loop in enumerate(vloops[:2]):
         xv = {n.id for n in ast.walk(loop.target) if isinstance(n, ast.Name)}
         accs = set(list_locals) | {"self.l"}
@@ -493,6 +493,14 @@ def r_addvertex(repo, tier):
         n += 1
         own_reg = r.id in reg
         skip_reg = (not own_reg) and r.id in cfg.reachable_from(cfg.entry, avoid=reg)
+        if skip_reg and isinstance(r.ast.value, ast.Name) and len(f.params()) > 1:
+            # `if oldnode == v: return oldnode`: what is returned is the vertex already held at that address, equal to v
+            vparam = f.params()[1]
+            for t in ast.walk(f.node):
+                if isinstance(t, ast.If) and isinstance(t.test, ast.Compare) and len(t.test.ops) == 1 and isinstance(t.test.ops[0], ast.Eq) \
+                        and {norm(t.test.left), norm(t.test.comparators[0])} == {r.ast.value.id, vparam} and any(x is r.ast for b in t.body for x in ast.walk(b)):
+                    skip_reg = False
+                    out.inst("%s::%s@%d::same" % (f.key, norm(r.ast), r.ast.lineno), {"return": norm(r.ast), "under": norm(t.test), "reads": "the vertex already registered at this address"})
         out.inst("%s::%s@%d" % (f.key, norm(r.ast), r.ast.lineno), {"return": norm(r.ast), "registered_on_all_paths": not skip_reg})
         if skip_reg:
             out.report(f.file, f.dqual, "%s without registration" % norm(r.ast), r.ast.lineno, "add_vertex can return by `%s` without having registered the vertex in this graph (no base-class add_vertex / __cut_add_vertex on the path): the block is neither a vertex nor in the support, so later blocks are not split against it and its instructions are missing from the partition" % norm(r.ast))
